@@ -176,7 +176,13 @@ inline void ctor_run(vh::Ctx& c, const Ctor& k, const double* p, bool judge, con
   std::string args = "["; for (size_t i = 0; i < k.typ.size(); ++i) { if (i) args += ","; args += vh::jnum(p[i]); } args += "]";
   std::string hx; { char b[40]; for (size_t i = 0; i < k.typ.size(); ++i) { std::snprintf(b, sizeof b, "%a ", p[i]); hx += b; } }
   vh::J d; d.raw("params", args).str("hexparams", hx).str("what", what).i("expected", want).i("got", got);
-  if (got == 3) c.viol("exception:" + type + "@" + k.name, cls, d);
+  if (got == 3) {
+    // KNOWN regime (DECISIONS.md): DST(N)/DST::reset(N) with 2*N not representable -> std::length_error; one key
+    std::string mon = "exception:" + type + "@" + k.name;
+    bool dst_huge = k.name.compare(0, 3, "DST") == 0 && type == "std::length_error" && !(p[0] >= 0 && p[0] < 1073741824.0);
+    d.str("monitor", mon);
+    c.viol(dst_huge ? "exception:std::length_error@DST(N-huge)" : mon, cls, d);
+  }
   else if (judge && want % 10 == 1 && got != 1) c.viol("ctor:C13/illegal-parameter-accepted/" + k.name + (want == 11 ? "/opposite-poles" : ""), cls, d);
   else if (judge && want == 0 && got != 0) c.viol("ctor:C13/legal-parameter-rejected/" + k.name, cls, d);
   uint64_t h = vh::hstr(k.name.c_str()); for (size_t i = 0; i < k.typ.size(); ++i) h = vh::hmix(h, p[i]);
